@@ -705,4 +705,97 @@ theorem hexec_frame {A : Nat → Prop} (flows : List (String × HFlowDef)) : ∀
                             exact g2.trans (r3.trans (hexec_frame flows fuel _ u rest (r3.pre hp2)))
                           · cases hgc
 
+/-! ### return members -/
+
+theorem bindRet_lookup_mem : ∀ (ms : List Param) (c : Ctx), (pnames ms).Nodup → ∀ m ∈ ms,
+    lookup (.name m.name) (bindRet ms c) = some m.dfltVal
+  | [], _, _, m, hm => by cases hm
+  | q :: ms, c, hnd, m, hm => by
+    simp only [pnames, List.map_cons, List.nodup_cons] at hnd
+    simp only [bindRet]
+    rcases List.mem_cons.1 hm with e | e
+    · subst e
+      rw [bindRet_lookup_other _ ms _ (fun x hx he => hnd.1 (by
+        injection he with he
+        exact he ▸ List.mem_map_of_mem hx))]
+      exact lookup_set_eq _ _ _
+    · exact bindRet_lookup_mem ms _ hnd.2 m e
+
+/-- **Return members are fresh, one call**: every return member of a well-formed call (member names distinct,
+    none named like a parameter) starts as its declared default — a NEW object — in the callee's entry context. -/
+theorem return_members_fresh_call_core (h : Heap) (params rets : List Param) (ua : Ctx) (k : Nat) (form : CallForm)
+    (flow : String) (n caller : Nat) (hwf : WellFormedCall params rets ua k) (hrn : (pnames rets).Nodup) :
+    ∃ f0 f, createFlowInstance flow (allocDefaults h params).2 (allocDefaults (allocDefaults h params).1 rets).2
+          (startArgs ua form flow n caller) = .ok f0 ∧
+      startFlow false (startArgs ua form flow n caller) f0 = .ok f ∧
+      ∀ j (hj : j < rets.length),
+        lookup (.name rets[j].name) (derefCtx (allocDefaults (allocDefaults h params).1 rets).1 f.context) = some rets[j].dfltVal ∧
+        (rets[j].dflt.isSome → ∃ a, h.length ≤ a ∧ lookup (.name rets[j].name) f.context = some (addr a)) := by
+  have hwf' := wellFormedCall_allocDefaults params rets ua k h (allocDefaults h params).1 hwf
+  have hW := wellFormed_of_call _ _ ua k form flow n caller hwf'
+  obtain ⟨f0, f, h1, h2, _, _⟩ := bind_spec_core flow _ _ _ k hW
+  refine ⟨f0, f, h1, h2, fun j hj => ?_⟩
+  -- explicit shape of the two instances
+  obtain ⟨hnd, hctx, hretsd, hpu, hph, _, _, _⟩ := hW
+  simp only [createFlowInstance, startCtx, hctx] at h1
+  injection h1 with h1
+  subst h1
+  obtain ⟨pu, hpu'⟩ := Option.isSome_iff_exists.1 hpu
+  obtain ⟨ph, hph'⟩ := Option.isSome_iff_exists.1 hph
+  simp only [startFlow, Bool.false_eq_true, if_false, hpu', hph'] at h2
+  split at h2
+  · cases h2
+  · injection h2 with h2
+    subst h2
+    simp only
+    -- the keys `_start_flow` walks over: parameter keys, then `$i` keys — never a return member's name
+    have hk1 : keys (bindNamed (startArgs ua form flow n caller) (allocDefaults h params).2 ([], [])).1
+        = (pnames (allocDefaults h params).2).map argKey := by
+      have := bindNamed_keys (startArgs ua form flow n caller) (allocDefaults h params).2 [] [] hnd (by simp [keys])
+      simpa [keys] using this
+    obtain ⟨rest, hkeys, hrest⟩ := bindPos_keys (startArgs ua form flow n caller) (allocDefaults h params).2 0 _ (by
+      intro p hp; rw [hk1]; exact List.mem_map_of_mem (List.mem_map_of_mem hp))
+    rw [hk1] at hkeys
+    obtain ⟨hj', hname, hnone, hsome⟩ := allocDefaults_spec rets (allocDefaults h params).1 j hj
+    have hmem : (allocDefaults (allocDefaults h params).1 rets).2[j]'hj' ∈ (allocDefaults (allocDefaults h params).1 rets).2 :=
+      List.getElem_mem hj'
+    have hnotparam : rets[j].name ∉ pnames (allocDefaults h params).2 := by
+      rw [← hname]; exact hretsd _ hmem
+    have hlook : lookup (.name rets[j].name) (startLoop (startArgs ua form flow n caller)
+        (keys (bindPos (startArgs ua form flow n caller) (allocDefaults h params).2 0
+          (bindNamed (startArgs ua form flow n caller) (allocDefaults h params).2 ([], [])).1)) 0
+        (bindRet (allocDefaults (allocDefaults h params).1 rets).2
+          (bindNamed (startArgs ua form flow n caller) (allocDefaults h params).2 ([], [])).2)).1
+        = some ((allocDefaults (allocDefaults h params).1 rets).2[j]'hj').dfltVal := by
+      rw [startLoop_lookup_not_mem _ _ _ _ _ (by
+        rw [hkeys, List.map_append]
+        intro hm
+        rcases List.mem_append.1 hm with hm | hm
+        · obtain ⟨y, hy, e⟩ := List.mem_map.1 hm
+          obtain ⟨z, hz, e2⟩ := List.mem_map.1 hy
+          subst e2
+          rw [paramOfKey_argKey] at e
+          injection e with e
+          exact hnotparam (e ▸ hz)
+        · obtain ⟨y, hy, e⟩ := List.mem_map.1 hm
+          obtain ⟨i, e2⟩ := hrest _ hy
+          subst e2
+          simp [paramOfKey] at e)]
+      have := bindRet_lookup_mem (allocDefaults (allocDefaults h params).1 rets).2
+        (bindNamed (startArgs ua form flow n caller) (allocDefaults h params).2 ([], [])).2
+        (by rw [pnames_allocDefaults]; exact hrn) _ hmem
+      rw [hname] at this
+      exact this
+    constructor
+    · rw [lookup_derefCtx, hlook, Option.map_some]
+      cases hd : rets[j].dflt with
+      | none => obtain ⟨e1, e2⟩ := hnone hd; rw [e1, e2]; rfl
+      | some e =>
+        obtain ⟨a, _, e1, e2⟩ := hsome (by simp [hd])
+        rw [e1, deref_addr, List.getD_eq_getElem?_getD, e2]; rfl
+    · intro hs
+      obtain ⟨a, ha, e1, _⟩ := hsome hs
+      obtain ⟨ext, hext⟩ := allocDefaults_prefix params h
+      exact ⟨a, by rw [hext] at ha; simp at ha; omega, by rw [hlook, e1]⟩
+
 end NemoVerif.Bind
